@@ -189,6 +189,9 @@ def sub_terms(a, b):
         return a
     if a == b:
         return const(0)
+    if isinstance(b, tuple) and b[0] == "binop" and b[1] == "Add" and is_const(b[3]) and not is_const(b[2]) and not is_const(a):
+        # a - (y + c) = (a - y) - c: keeps `a - y` as one atom with a constant offset
+        return sub_terms(sub_terms(a, b[2]), b[3])
     if is_const(b):
         if a[0] == "binop" and a[1] == "Add" and is_const(a[3]):
             d = a[3][1] - b[1]
@@ -373,6 +376,20 @@ def term_succs(t):
 
 # ------------------------------------------------------------------ constraints
 
+def _canon_len(seq):
+    """the canonical length term of a sequence value (same form as models.len_term for sub-slices)"""
+    while isinstance(seq, tuple) and seq and seq[0] in ("slice_of",):
+        seq = seq[1]
+    if isinstance(seq, tuple) and seq and seq[0] == "slice" and len(seq) == 4:
+        end = seq[3] if seq[3] is not None else _canon_len(seq[1])
+        return sub_terms(end, seq[2])
+    if isinstance(seq, tuple) and seq and seq[0] in ("str", "bytes"):
+        return const(len(seq[1]))
+    t = ("len", seq)
+    TY.setdefault(t, (64, False))
+    return t
+
+
 class Cons:
     """branch constraints of one path"""
 
@@ -416,7 +433,7 @@ class Cons:
             if isinstance(lit, tuple) and lit[0] == "&":
                 lit = lit[1]
             if isinstance(lit, tuple) and lit[0] in ("bytes", "str"):
-                ln = ("len", seq)
+                ln = _canon_len(seq)
                 TY.setdefault(ln, (64, False))
                 self.rel.append(("Le", const(len(lit[1])), ln))
                 if t[1].endswith("::starts_with"):
